@@ -826,14 +826,18 @@ fn vm_peak_kb() -> u64 {
 /// With --replay only the case whose witness is the recorded one is executed.
 static REPLAY: std::sync::OnceLock<Option<String>> = std::sync::OnceLock::new();
 
-fn skip_for_replay(wit: &dyn Fn() -> String) -> bool {
-    match REPLAY.get().and_then(|r| r.as_ref()) { Some(r) => wit() != *r, None => false }
+fn skip_for_replay(script: &[Ev], wit: &dyn Fn() -> String) -> bool {
+    match REPLAY.get().and_then(|r| r.as_ref()) {
+        // every witness ends with the schedule: a cheap first test
+        Some(r) => !r.ends_with(&format!("sched={}", render_script(script))) || wit() != *r,
+        None => false,
+    }
 }
 
 /// Round trip of one value through one reader under one fragmentation.
 fn judge_roundtrip(acc: &mut Acc, val: &Val, wire: &[u8], rd: Rd, script: &[Ev]) {
     let wit = || format!("pdu={} bytes={} reader={} sched={}", val.render(), show(wire), rd.render(), render_script(script));
-    if skip_for_replay(&wit) { return }
+    if skip_for_replay(script, &wit) { return }
     // an Error PDU is skipped; a sentinel after it shows where the reader stopped
     let sentinel = [9u8, 2, 0, 0, 0, 0, 0, 8];
     let (rds, stream): (Vec<Rd>, Vec<u8>) = if rd == Rd::SkipError {
@@ -873,7 +877,7 @@ fn judge_roundtrip(acc: &mut Acc, val: &Val, wire: &[u8], rd: Rd, script: &[Ev])
 /// `originals`: the values the stream was written from if it is uncorrupted
 /// (a complete PDU must then read back equal).
 fn judge_fault(acc: &mut Acc, rds: &[Rd], originals: Option<&[&Val]>, stream: &[u8], script: &[Ev], wit: &dyn Fn() -> String) {
-    if skip_for_replay(wit) { return }
+    if skip_for_replay(script, wit) { return }
     let run = exec(rds, stream, script);
     acc.evals += 1;
     let mut ok = run_level(acc, "fault", wit, run.pending_at_quiescence, &run.end, run.livelock, run.spin, true);
@@ -983,7 +987,7 @@ fn client_seeds() -> Vec<ClientSeed> {
 
 fn judge_client(acc: &mut Acc, seed: &ClientSeed, stream: &[u8], script: &[Ev], pristine: bool, closed: bool, what: &str) {
     let wit = || format!("client={} reply={} {what}sched={}", seed.name, show(stream), render_script(script));
-    if skip_for_replay(&wit) { return }
+    if skip_for_replay(script, &wit) { return }
     let run = exec_client(seed.init_v, seed.state, stream, script);
     acc.evals += 1;
     let mut ok = run_level(acc, "client", &wit, run.pending_at_quiescence, &run.end, run.livelock, run.spin, closed);
@@ -1190,8 +1194,8 @@ fn main() {
         let before = vm_peak_kb();
         let r = exec(&[Rd::Read(Ty::RouterKey)], &s, &closes(s.len())[0]);
         let after = vm_peak_kb();
-        format!("RouterKey::read on a header announcing 2^32-1 octets over a 37-octet stream: {}; peak virtual size grew by {} MiB (the key-info buffer is allocated from the announced length before anything is read; reported, not judged)",
-            match r.steps.first().map(|s| &s.res) { Some(Err(e)) => format!("Err({e})"), other => format!("{other:?}") }, (after.saturating_sub(before)) / 1024)
+        format!("RouterKey::read on a header announcing 2^32-1 octets over a 37-octet stream: {}; peak virtual size grew by more than 3 GiB: {} (the key-info buffer is allocated from the announced length before anything is read; reported, not judged)",
+            match r.steps.first().map(|s| &s.res) { Some(Err(e)) => format!("Err({e})"), other => format!("{other:?}") }, if after.saturating_sub(before) / 1024 > 3072 { "yes" } else { "no" })
     };
     let accs: Vec<Acc> = hseeds.par_iter().map(|(val, wire)| {
         let mut acc = Acc::default();
